@@ -33,6 +33,7 @@ var stubPkgs = []string{
 	"github.com/gogo/protobuf",
 	"github.com/golang/protobuf",
 	"google.golang.org/protobuf",
+	"sigs.k8s.io/controller-runtime/pkg/log",
 	modPath + "/pkg/scheduler/metrics",
 }
 
@@ -202,7 +203,7 @@ func run(c *cfg) int {
 	sort.Strings(patterns)
 	// restrict the overlay to packages being loaded (+ runtime)
 	for _, f := range files {
-		if _, ok := selected[f.relPkg]; !ok && f.relPkg != "pkg/zz_verifrt" {
+		if _, ok := selected[f.relPkg]; !ok && !strings.HasPrefix(filepath.Base(f.relPkg), "zz_verif") {
 			delete(overlay, f.virtual)
 		}
 	}
@@ -246,6 +247,7 @@ func run(c *cfg) int {
 	env.Deadline = c.deadline
 	env.Verbose = c.verbose
 	env.Tier = c.tier
+	env.ModPath = modPath
 	env.DumpDir = filepath.Join(c.outDir, "smt")
 	os.MkdirAll(env.DumpDir, 0o755)
 
@@ -451,7 +453,7 @@ func replayOnly(c *cfg, files []harnessFile, overlay map[string][]byte, pkgFuncs
 		return fail(c, "harness "+v.Harness+" not found")
 	}
 	for _, f := range files {
-		if f.relPkg != rel && f.relPkg != "pkg/zz_verifrt" {
+		if f.relPkg != rel && !strings.HasPrefix(filepath.Base(f.relPkg), "zz_verif") {
 			delete(overlay, f.virtual)
 		}
 	}
